@@ -150,9 +150,11 @@ class SimPool(object):
         self._state = state
         self._schedule = schedule
         self._executor = executor
-        self._processes = processes if processes else (os.cpu_count() or 1)
-        if self._processes < 1:
-            raise ValueError('Number of processes must be at least 1')
+        if processes is None:
+            processes = os.cpu_count() or 1
+        if processes < 1:
+            raise ValueError('Number of processes must be at least 1')     # as multiprocessing.Pool
+        self._processes = processes
         self._tasks = []
         self._pending = []                 # task indices not yet started (FIFO)
         self._idle = list(range(self._processes))
